@@ -1,6 +1,64 @@
 """C11 — graph iteration stays well defined while the graph is edited.
 
-WORK IN PROGRESS docstring (rewritten at the end of the build).
+Decided by: Coq theorems (coq/theories/C11/Property.v, 21 theorems, all "Closed under the global context")
+about the hand-written executable model coq/theories/C11/Model.v of onnx_ir._linked_list.DoublyLinkedSet and of
+its generator-based iterators, tied to the code on every run by a correspondence check on schedules
+(interleavings of next() calls of several forward/backward iterators with edits and queries) against the real
+DoublyLinkedSet AND against ir.Graph / ir.Function with real ir.Node objects; plus a property oracle (public API
+only, plain-Python-list specification) that is run on every schedule and is the violation search.
+
+MODEL (Model.v)  "live sequence + frozen tombstone links":
+  live : list (box id, value)            pointers of live boxes are derived from the sequence
+  tomb : list (box id, (prev, next))     frozen pointers of erased boxes, in erase order (oldest first)
+  nid, slen                              box allocation counter, the _length field
+  cursor = Fresh | Parked b | Done       CPython generator: head read at first next(); b.next read at RESUME time
+  step = `while box is not root` loop with explicit fuel (one unit per erased box skipped); None = stuck
+  edits: insert_one_after (same value -> no-op, present -> remove first), insert_many_after (threads the
+  insertion point), append/extend/insert_after/insert_before (box.prev)/remove; len/getitem/membership written
+  through the iterators as the code does.  Graph/Function methods are the same list operations; Graph.sort is
+  extend(sorted order) and Graph.remove(iterable) a sequence of removes (translated by the harness).
+THEOREMS (all proved for all states / schedules, no bounds):
+  C11_wf_init, C11_wf_preserved            invariant `wf`: distinct box ids, distinct values, _length = len, every
+                                           frozen pointer is the root, a live box, or a box erased LATER (both
+                                           directions) — the termination measure
+  C11_refines_list, C11_observers_agree,   every edit acts on list(g) as the plain-list operation l_apply and is
+  C11_getitem_in_range                     rejected exactly when it is; list(), reversed, len, g[i], `in` agree
+  C11_step_law, C11_fresh_future           next() yields the head of `futE` (a node of the graph at that moment)
+  C11_iter_terminates, C11_never_raises    <= len+1 calls to Done without edits, yields = futE; no schedule gets
+                                           the model stuck (fuel suffices, no dangling pointer)
+  C11_schedule_law                         for EVERY interleaving and every node set U no edit touches:
+                                           U-yields so far ++ U-future now = U-future at the start
+  C11_untouched_once_in_order,             corollaries: untouched nodes exactly once in (reverse) graph order;
+  C11_not_in_future_never_yielded          nodes behind the position never yielded
+  C11_insert_{after,before}_current_{forward,backward}, C11_insert_position_law   inserted after the position
+                                           -> yielded (next), before -> skipped, for both directions; general gap law
+  C11_remove_law, C11_remove_current_resumes_at_successor, C11_move_current_resumes_at_successor
+  C11_cursors_independent                  iterator i of a multi-iterator schedule = the same iterator alone
+  Nothing is `_partial`.  What is NOT a Coq theorem: RecursiveGraphIterator (Python specification only, below)
+  and the bridge "l_ins at index" for insertions far from the cursor is stated positionally
+  (C11_insert_position_law) rather than per API call.
+READINGS of the English (weaker reading taken by the oracle where ambiguous):
+  * "touched" = removed, inserted or moved by an edit (being the anchor of insert_before/after does not touch).
+  * position of an iterator whose current node was removed = the gap where it was; a node later inserted
+    exactly into that gap is, in the code and model, NOT yielded (it is "before" the position:
+    Example C11_example_state).  The oracle accepts both behaviours there (`opt` elements), everything else
+    is exact.
+  * Graph.sort moves every node (extend of the sorted order), so a suspended iterator legitimately re-yields
+    them; an iterator that already raised StopIteration stays exhausted (generator semantics).
+  * a not-yet-started iterator has no position: its future is the list at its first next().
+TIE (measured in evidence): random state-aware schedules (dls/graph/function kinds, up to 80 events x 4
+  iterators, sort / remove(iterable) / single-Node insert on graph kinds) -> case files, the model replays every
+  event inside Coq and compares result, list(g), list(reversed(g)), len after EVERY event; exhaustive small
+  scopes: Coq model on the tree of ALL schedules of <= 3 events (quick; 4 thorough) over 3 elements, 26-event
+  alphabet, 2 iterators, 3 initial configurations; oracle on all schedules one event deeper (457k quick).
+  RecursiveGraphIterator: nested If-like graphs (GRAPH and GRAPHS attributes, depth 2), oracle_rec composes
+  plain-list cursors into the depth-first traversal and checks every yield.
+MODELLED NOT VERIFIED: generator semantics; None values (TypeError before any mutation); owning_list check (a
+  single list: boxes reachable from its root are its own); the id->box dict (derived: find_box); slices.
+OBSERVATION outside C11 (C01/C06 family, not reported here): Graph.insert_after(absent_anchor, [n]) leaves
+  n.graph = g; a later Graph.remove([present, n]) then removes `present` and raises.  The generator avoids
+  remove(iterable) over such nodes; single removes behave like the list.
+MUTANTS of /repo tried (scratch worktree, VERIF_REPO): see the end of this docstring.
 """
 
 from __future__ import annotations
@@ -122,13 +180,14 @@ class _Hang(BaseException):
 
 
 _ALARM_READY = False
+HANGS = 0            # implementation calls that did not return, this run
 
 
 class _limit:
     """Wall-clock limit for the implementation calls of ONE schedule (SIGALRM, main thread only): an iterator
     that never returns must become an observation, not a hung check."""
 
-    def __init__(self, seconds=5.0):
+    def __init__(self, seconds=1.5):
         self.seconds = seconds
 
     def __enter__(self):
@@ -161,6 +220,8 @@ def run_impl(sched: dict) -> list[dict]:
                 r = im.do(e)
                 f, b, n = im.snapshot()
         except _Hang:
+            global HANGS
+            HANGS += 1
             out.append({"res": ["raise", "Hang"], "fwd": [], "bwd": [], "len": -1})
             break           # the structure cannot be observed any further
         except Exception as ex:  # noqa: BLE001  (snapshot itself failed: list()/len() raised)
@@ -716,6 +777,8 @@ def run_rec(sched):
                 snap = im.snapshot()
             out.append({"res": list(r), "lists": snap})
         except _Hang:
+            global HANGS
+            HANGS += 1
             out.append({"res": ["raise", "Hang"], "lists": {str(g): [] for g in REC_POOLS}})
             break
         except Exception as ex:  # noqa: BLE001
@@ -978,7 +1041,7 @@ def exhaustive_oracle(ck, init, cursors, depth, elems, seen, budget_s):
         n += 1
         if oracle(s, obs):
             report(ck, s, "oracle-exhaustive", seen)
-            if len(ck.violations) >= 3:
+            if len(ck.violations) >= 3 or HANGS >= 3:
                 break
         if n % 4096 == 0 and time.time() - t0 > budget_s:
             ck.notes.append(f"exhaustive oracle scope init={init} depth={depth} stopped after {n} schedules (time budget)")
@@ -1061,6 +1124,10 @@ def run(ck) -> None:
         scheds.append(gen_rec(rng, rng.choice([30, 60])))
     cases, oracle_failed = [], []
     for s in scheds:
+        if HANGS >= 3 or len(oracle_failed) >= 25:
+            ck.notes.append("stopped generating early: the implementation already fails the oracle "
+                            f"({len(oracle_failed)} schedules, {HANGS} non-terminating calls)")
+            break
         obs, bad = check_any(s)
         ck.count(len(s["events"]))
         for e in s["events"]:
@@ -1090,6 +1157,8 @@ def run(ck) -> None:
     elems = [1, 2, 3]
     tree_mism = []
     for init, cursors in (([1, 2, 3], [True, False]), ([1, 2], [True, True]), ([2, 1, 3], [False, False])):
+        if HANGS >= 3:
+            break
         files, n = tree_files(init, cursors, depth, elems)
         ck.count(n)
         ck.hist("exhaustive_scopes", f"coq-tree init={init} cursors={cursors} depth={depth}", n)
@@ -1108,12 +1177,13 @@ def run(ck) -> None:
                                   "events": [["new", f] for f in cursors] + path_of(p, first, elems)})
     for s in tree_mism[:3]:
         ck.broken("correspondence:DoublyLinkedSet-model(exhaustive)", json.dumps(s))
-    scopes = [([1, 2, 3], [True, False])]
+    scopes = [([1, 2, 3], [True, False], depth + 1, 45 if not ck.thorough else 600)]
     if ck.thorough:
-        scopes += [([1, 2], [True, True]), ([1, 2, 3], [False, False])]
-    for init, cursors in scopes:
-        d = depth + 1
-        n = exhaustive_oracle(ck, init, cursors, d, elems, seen, 45 if not ck.thorough else 600)
+        scopes += [([1, 2], [True, True], depth, 120), ([1, 2, 3], [False, False], depth, 120)]
+    for init, cursors, d, budget in scopes:
+        if HANGS >= 3 or len(oracle_failed) >= 25:
+            break
+        n = exhaustive_oracle(ck, init, cursors, d, elems, seen, budget)
         ck.count(n)
         ck.hist("exhaustive_scopes", f"oracle init={init} cursors={cursors} depth={d}", n)
 
